@@ -29,6 +29,8 @@ import (
 // Anything else (state-dependent functions, slices, maps, coins, loop-invariant obligations whose model is a loop-head state,
 // strings that must be bech32 addresses) is not replayed: the violation line then ends with no-failing-input-found.
 
+const rpMaxList = 3
+
 type rpCtx struct {
 	p       *Program
 	pkg     *types.Package
@@ -46,8 +48,25 @@ func (c *rpCtx) qual(pk *types.Package) string {
 	if pk == c.pkg {
 		return ""
 	}
-	c.imports[pk.Path()] = pk.Name()
-	return pk.Name()
+	if a, ok := c.imports[pk.Path()]; ok {
+		return a
+	}
+	// a fresh alias: two imported packages may share a name (the repo has several packages called "types")
+	alias := pk.Name()
+	for n := 2; ; n++ {
+		taken := false
+		for _, a := range c.imports {
+			if a == alias {
+				taken = true
+			}
+		}
+		if !taken {
+			break
+		}
+		alias = fmt.Sprintf("%s%d", pk.Name(), n)
+	}
+	c.imports[pk.Path()] = alias
+	return alias
 }
 
 func (c *rpCtx) typeStr(t types.Type) string { return types.TypeString(t, c.qual) }
@@ -77,11 +96,25 @@ func rpSupported(t types.Type, pkg *types.Package, depth int, result bool) bool 
 		}
 		return true
 	case VPtr:
-		if depth > 0 {
+		if depth > 2 {
 			return false
 		}
 		et := ptrElem(t)
 		return et != nil && classify(et) != VPtr && classify(et) != VIface && rpSupported(et, pkg, depth+1, result)
+	case VSlice:
+		// a list of flat structs, of pointers to flat structs, or of scalars; at most rpMaxList elements are built
+		if depth > 2 {
+			return false
+		}
+		et := sliceElem(t)
+		if et == nil {
+			return false
+		}
+		if classify(et) == VPtr {
+			pe := ptrElem(et)
+			return pe != nil && classify(pe) == VStruct && rpSupported(pe, pkg, depth+1, result)
+		}
+		return classify(et) != VSlice && classify(et) != VIface && rpSupported(et, pkg, depth+1, result)
 	case VIface:
 		if result {
 			return typeString(t) == "error"
@@ -263,6 +296,31 @@ func (c *rpCtx) build(t types.Type, name string) (string, *Val) {
 			return "&" + e, &Val{K: VPtr, Typ: t, T: r, Ptr: &PtrInfo{Base: PObj, Root: et}}
 		}
 		return "rpPtr(" + e + ")", &Val{K: VPtr, Typ: t, T: r, Ptr: &PtrInfo{Base: PObj, Root: et}}
+	case VSlice:
+		et := sliceElem(t)
+		n := num(".len")
+		arr := num(".arr")
+		if n.Sign() == 0 && arr.Sign() == 0 {
+			return "(" + c.typeStr(t) + ")(nil)", &Val{K: VSlice, Typ: t, T: Num(0), Off: Num(0), Len: Num(0)}
+		}
+		if !n.IsInt64() || n.Int64() > rpMaxList || n.Sign() < 0 {
+			c.fail = "list in the model longer than the replay builds (" + n.String() + " elements)"
+			return "", nil
+		}
+		ref := c.st.alloc()
+		var parts []string
+		for k := 0; k < int(n.Int64()); k++ {
+			e, ev := c.build(et, fmt.Sprintf("%s[%d]", name, k))
+			if c.fail != "" {
+				return "", nil
+			}
+			if err := c.st.storeElem(et, ref, ElemIdx(Num(0), Num(int64(k))), "", ev); err != nil {
+				c.fail = err.Error()
+				return "", nil
+			}
+			parts = append(parts, e)
+		}
+		return c.typeStr(t) + "{" + strings.Join(parts, ", ") + "}", &Val{K: VSlice, Typ: t, T: ref, Off: Num(0), Len: NumBig(n)}
 	case VIface:
 		c.imports["github.com/tendermint/tendermint/libs/log"] = "tmlog"
 		return "tmlog.NewNopLogger()", freshVal(t, "logger", true)
@@ -271,34 +329,42 @@ func (c *rpCtx) build(t types.Type, name string) (string, *Val) {
 	return "", nil
 }
 
-// printer: Go statements printing the leaves of expression e (type t) under label, in the format "AR label.path=value".
-func (c *rpCtx) printer(t types.Type, e, label string, sb *strings.Builder, depth int) {
+// printer: Go statements printing the leaves of expression e (type t); lbl is a Go expression of type string that
+// evaluates to the leaf-name prefix; lines have the format "AR <name>=<value>".
+func (c *rpCtx) printer(t types.Type, e, lbl string, sb *strings.Builder, depth int) {
 	switch classify(t) {
 	case VInt:
-		fmt.Fprintf(sb, "\tfmt.Printf(\"AR %s=%%d\\n\", %s)\n", label, e)
+		fmt.Fprintf(sb, "\tfmt.Printf(\"AR %%s=%%d\\n\", %s, %s)\n", lbl, e)
 	case VBool:
-		fmt.Fprintf(sb, "\tfmt.Printf(\"AR %s=%%t\\n\", %s)\n", label, e)
+		fmt.Fprintf(sb, "\tfmt.Printf(\"AR %%s=%%t\\n\", %s, %s)\n", lbl, e)
 	case VStr:
-		fmt.Fprintf(sb, "\tfmt.Printf(\"AR %s=%%q\\n\", string(%s))\n", label, e)
+		fmt.Fprintf(sb, "\tfmt.Printf(\"AR %%s=%%q\\n\", %s, string(%s))\n", lbl, e)
 	case VTime:
-		fmt.Fprintf(sb, "\tfmt.Printf(\"AR %s.t=%%d\\n\", (%s).UnixNano())\n", label, e)
+		fmt.Fprintf(sb, "\tfmt.Printf(\"AR %%s.t=%%d\\n\", %s, (%s).UnixNano())\n", lbl, e)
 	case VBig:
+		val := "(" + e + ").String()"
 		if isDecType(t) {
-			fmt.Fprintf(sb, "\tif (%s).IsNil() { fmt.Printf(\"AR %s.nil=true\\n\") } else { fmt.Printf(\"AR %s.nil=false\\nAR %s.v=%%s\\n\", (%s).BigInt().String()) }\n", e, label, label, label, e)
-		} else {
-			fmt.Fprintf(sb, "\tif (%s).IsNil() { fmt.Printf(\"AR %s.nil=true\\n\") } else { fmt.Printf(\"AR %s.nil=false\\nAR %s.v=%%s\\n\", (%s).String()) }\n", e, label, label, label, e)
+			val = "(" + e + ").BigInt().String()"
 		}
+		fmt.Fprintf(sb, "\tif (%s).IsNil() { fmt.Printf(\"AR %%s.nil=true\\n\", %s) } else { fmt.Printf(\"AR %%s.nil=false\\nAR %%s.v=%%s\\n\", %s, %s, %s) }\n", e, lbl, lbl, lbl, val)
 	case VIface:
-		fmt.Fprintf(sb, "\tif %s == nil { fmt.Printf(\"AR %s.tag=0\\n\") } else { fmt.Printf(\"AR %s.tag=1\\nAR %s.msg=%%q\\n\", %s.Error()) }\n", e, label, label, label, e)
+		fmt.Fprintf(sb, "\tif %s == nil { fmt.Printf(\"AR %%s.tag=0\\n\", %s) } else { fmt.Printf(\"AR %%s.tag=1\\nAR %%s.msg=%%q\\n\", %s, %s, %s.Error()) }\n", e, lbl, lbl, lbl, e)
 	case VStruct:
 		st := types.Unalias(t).Underlying().(*types.Struct)
 		for i := 0; i < st.NumFields(); i++ {
-			c.printer(st.Field(i).Type(), "("+e+")."+st.Field(i).Name(), fmt.Sprintf("%s.%d", label, i), sb, depth)
+			c.printer(st.Field(i).Type(), "("+e+")."+st.Field(i).Name(), fmt.Sprintf("%s+\".%d\"", lbl, i), sb, depth)
 		}
 	case VPtr:
 		et := ptrElem(t)
-		fmt.Fprintf(sb, "\tif %s == nil { fmt.Printf(\"AR %s=0\\n\") } else {\n\tfmt.Printf(\"AR %s=1\\n\")\n", e, label, label)
-		c.printer(et, "(*"+e+")", label+"->", sb, depth+1)
+		fmt.Fprintf(sb, "\tif %s == nil { fmt.Printf(\"AR %%s=0\\n\", %s) } else {\n\tfmt.Printf(\"AR %%s=1\\n\", %s)\n", e, lbl, lbl)
+		c.printer(et, "(*"+e+")", lbl+"+\"->\"", sb, depth+1)
+		sb.WriteString("\t}\n")
+	case VSlice:
+		et := sliceElem(t)
+		iv, ev := fmt.Sprintf("i%d", depth), fmt.Sprintf("e%d", depth)
+		fmt.Fprintf(sb, "\tfmt.Printf(\"AR %%s.len=%%d\\n\", %s, len(%s))\n", lbl, e)
+		fmt.Fprintf(sb, "\tfor %s, %s := range %s {\n\t_ = %s\n", iv, ev, e, ev)
+		c.printer(et, ev, fmt.Sprintf("%s+fmt.Sprintf(\"[%%d]\", %s)", lbl, iv), sb, depth+1)
 		sb.WriteString("\t}\n")
 	}
 }
@@ -360,6 +426,29 @@ func (c *rpCtx) decode(t types.Type, label string, out map[string]string) *Val {
 			return nil
 		}
 		return &Val{K: VPtr, Typ: t, T: r, Ptr: &PtrInfo{Base: PObj, Root: et}}
+	}
+	if classify(t) == VSlice {
+		et := sliceElem(t)
+		n, err := strconv.Atoi(out[label+".len"])
+		if err != nil {
+			c.fail = "cannot parse printed length of " + label
+			return nil
+		}
+		if n == 0 {
+			return &Val{K: VSlice, Typ: t, T: Num(0), Off: Num(0), Len: Num(0)}
+		}
+		ref := c.st.alloc()
+		for k := 0; k < n; k++ {
+			ev := c.decode(et, fmt.Sprintf("%s[%d]", label, k), out)
+			if c.fail != "" {
+				return nil
+			}
+			if err := c.st.storeElem(et, ref, ElemIdx(Num(0), Num(int64(k))), "", ev); err != nil {
+				c.fail = err.Error()
+				return nil
+			}
+		}
+		return &Val{K: VSlice, Typ: t, T: ref, Off: Num(0), Len: Num(int64(n))}
 	}
 	c.fail = "unsupported result type " + typeString(t)
 	return nil
@@ -436,7 +525,8 @@ func autoReplayOnce(p *Program, id string, o *Obligation, replayPath string, mod
 	x.opaque = map[string]bool{}
 	x.fuel = 8
 	st := x.initState()
-	c := &rpCtx{p: p, pkg: fn.Pkg.Pkg, imports: map[string]string{"fmt": "fmt", "testing": "testing"}, model: o.Model, strMemo: map[string]string{}, st: st, strMode: mode}
+	c := &rpCtx{p: p, pkg: fn.Pkg.Pkg, imports: map[string]string{"fmt": "fmt", "testing": "testing", "cosmossdk.io/math": "math",
+		"github.com/cosmos/cosmos-sdk/types": "sdk", "math/big": "big", "time": "time"}, model: o.Model, strMemo: map[string]string{}, st: st, strMode: mode}
 	defer func() { report.strUsed = c.strUsed }()
 	var detail string
 	confirmed := false
@@ -486,18 +576,15 @@ func autoReplayOnce(p *Program, id string, o *Obligation, replayPath string, mod
 		}
 		body.WriteString("\tfmt.Printf(\"AR RETURNED\\n\")\n")
 		for i := 0; i < res.Len(); i++ {
-			c.printer(res.At(i).Type(), fmt.Sprintf("r%d", i), fmt.Sprintf("R%d", i), &body, 0)
+			c.printer(res.At(i).Type(), fmt.Sprintf("r%d", i), fmt.Sprintf("\"R%d\"", i), &body, 0)
 		}
 		for i, prm := range fn.Params {
-			if classify(prm.Type()) == VPtr {
-				c.printer(prm.Type(), fmt.Sprintf("a%d", i), fmt.Sprintf("P%d", i), &body, 0)
+			if k := classify(prm.Type()); k == VPtr || k == VSlice {
+				c.printer(prm.Type(), fmt.Sprintf("a%d", i), fmt.Sprintf("\"P%d\"", i), &body, 0)
 			}
 		}
 		var src strings.Builder
 		fmt.Fprintf(&src, "package %s\n\nimport (\n", fn.Pkg.Pkg.Name())
-		c.imports["cosmossdk.io/math"] = "math"
-		c.imports["github.com/cosmos/cosmos-sdk/types"] = "sdk"
-		c.imports["math/big"] = "big"
 		var paths []string
 		for ip := range c.imports {
 			if ip != fn.Pkg.Pkg.Path() {
@@ -512,7 +599,7 @@ func autoReplayOnce(p *Program, id string, o *Obligation, replayPath string, mod
 		src.WriteString("func rpInt(s string) math.Int { v, ok := math.NewIntFromString(s); if !ok { panic(\"bad int\") }; return v }\n")
 		src.WriteString("func rpDec(s string) sdk.Dec { b, ok := new(big.Int).SetString(s, 10); if !ok { panic(\"bad dec\") }; return sdk.NewDecFromBigIntWithPrec(b, 18) }\n")
 		src.WriteString("func rpPtr[T any](v T) *T { return &v }\n")
-		src.WriteString("var _ = rpInt\nvar _ = rpDec\n\n")
+		src.WriteString("var _ = rpInt\nvar _ = rpDec\nvar _ = time.Now\n\n")
 		src.WriteString("func TestZZAutoReplay(t *testing.T) {\n\tdefer func() {\n\t\tif r := recover(); r != nil {\n\t\t\tfmt.Printf(\"AR PANIC %v\\n\", r)\n\t\t}\n\t}()\n")
 		src.WriteString(body.String())
 		src.WriteString("}\n")
@@ -574,6 +661,16 @@ func autoReplayOnce(p *Program, id string, o *Obligation, replayPath string, mod
 			results = append(results, c.decode(res.At(i).Type(), fmt.Sprintf("R%d", i), lines))
 		}
 		for i, prm := range fn.Params {
+			if classify(prm.Type()) == VSlice && args[i].T.K != TNum {
+				// elements the call may have written in place
+				et := sliceElem(prm.Type())
+				n, _ := strconv.Atoi(lines[fmt.Sprintf("P%d.len", i)])
+				for k := 0; k < n && c.fail == ""; k++ {
+					if ev := c.decode(et, fmt.Sprintf("P%d[%d]", i, k), lines); ev != nil && c.fail == "" {
+						_ = st.storeElem(et, args[i].T, ElemIdx(Num(0), Num(int64(k))), "", ev)
+					}
+				}
+			}
 			if classify(prm.Type()) == VPtr && lines[fmt.Sprintf("P%d", i)] == "1" {
 				et := ptrElem(prm.Type())
 				nv := c.decode(et, fmt.Sprintf("P%d->", i), lines)
